@@ -357,7 +357,7 @@ fn perturb(out: &mut Out, rng: &mut Rng, what: &str, base: &[u8], tags: &[usize]
 pub fn generate(args: &Args) -> Vec<Vec<String>> {
     let mut rng = Rng::new(args.seed);
     let mut out = Out { cases: vec![] };
-    let scale: usize = if args.thorough() { 12 } else { 1 };
+    let scale: usize = if args.thorough() { 16 } else { 2 };
 
     // ---- boundary enumerations: every instruction, every argument axis
     for rep in 0..scale {
@@ -431,7 +431,7 @@ pub fn generate(args: &Args) -> Vec<Vec<String>> {
     out.push("ata special", ops);
 
     // ---- PRNG-driven
-    let n_random = if args.thorough() { 120_000 } else { 6_000 };
+    let n_random = if args.thorough() { 1_200_000 } else { 80_000 };
     for i in 0..n_random {
         match rng.below(10) {
             0..=3 => {
